@@ -14,22 +14,13 @@ import (
 	"go/ast"
 	"go/parser"
 	"go/token"
-	"os"
 	"path/filepath"
 	"strings"
 )
 
 // The subcommand dispatches itself, so that main.go needs no change for it
 // (equivalent switch line for main.go: `case "dane": err = daneFacts(os.Args[2], os.Args[3])`).
-func init() {
-	if len(os.Args) >= 4 && os.Args[1] == "dane" {
-		if err := daneFacts(os.Args[2], os.Args[3]); err != nil {
-			fmt.Fprintln(os.Stderr, "extract:", err)
-			os.Exit(1)
-		}
-		os.Exit(0)
-	}
-}
+func init() { commands["dane"] = daneFacts }
 
 func findFunc(f *ast.File, recv, name string) *ast.FuncDecl {
 	for _, d := range f.Decls {
@@ -261,6 +252,28 @@ func daneFacts(repo, out string) error {
 		return true
 	})
 
+	// conditions and returns of discoverTLSA
+	dt := findFunc(sf, "daneDelivery", "discoverTLSA")
+	if dt == nil {
+		return fmt.Errorf("daneDelivery.discoverTLSA not found in %s", secPath)
+	}
+	var dtConds, dtRets []string
+	ast.Inspect(dt.Body, func(n ast.Node) bool {
+		switch x := n.(type) {
+		case *ast.FuncLit:
+			return false
+		case *ast.IfStmt:
+			dtConds = append(dtConds, exprStr(fset, x.Cond))
+		case *ast.ReturnStmt:
+			var rs []string
+			for _, r := range x.Results {
+				rs = append(rs, exprStr(fset, r))
+			}
+			dtRets = append(dtRets, strings.Join(rs, ", "))
+		}
+		return true
+	})
+
 	var b bytes.Buffer
 	b.WriteString("-- GENERATED by /verif/tools/extract dane from the current /repo working tree. Do not edit.\n")
 	b.WriteString("namespace MaddyVerif.Generated.Dane\n\n")
@@ -305,6 +318,21 @@ func daneFacts(repo, out string) error {
 		}
 		b.WriteString("\n")
 	}
-	b.WriteString("]\n\nend MaddyVerif.Generated.Dane\n")
+	b.WriteString("]\n\n")
+	writeStrs := func(doc, name string, xs []string) {
+		b.WriteString("/-- " + doc + " -/\n")
+		b.WriteString("def " + name + " : List String := [\n")
+		for i, c := range xs {
+			fmt.Fprintf(&b, "  %q", c)
+			if i+1 < len(xs) {
+				b.WriteString(",")
+			}
+			b.WriteString("\n")
+		}
+		b.WriteString("]\n\n")
+	}
+	writeStrs("every `if` condition of daneDelivery.discoverTLSA in source order", "discoverConds", dtConds)
+	writeStrs("every return statement of daneDelivery.discoverTLSA in source order", "discoverReturns", dtRets)
+	b.WriteString("end MaddyVerif.Generated.Dane\n")
 	return writeIfChanged(out, b.String())
 }
